@@ -22,7 +22,7 @@ prop("C01",
 
 prop("C04",
      level_text="generated-input search (rapid) with an adversarial outcome for about half of all reachable resolver / type-resolver / isTypeOf invocations; oracle = intrinsic response-conformance predicate + equality with the reference interpreter + no panic + JSON-serialisable",
-     note="conformance predicate and reference interpreter are the harness's own (harness/ref); deferred failures in non-null positions are not generated (ambiguous ordering, DESIGN §3.4) except the canonical reproducer of KF-C04-thunk-nonnull; ADDED IN THE SENSITIVITY PHASE (DESIGN 13): outcomes added in the sensitivity phase: runtime-type decisions at list-typed fields (every element), serializers that raise (leafpanic) or yield nothing although the value is not nullish (NaN text, NaN, typed nil pointer, integer text outside 32 bits), at fields and at list items; deferred list elements; foreign located errors; context errors of the resolver's own",
+     note="conformance predicate and reference interpreter are the harness's own (harness/ref); deferred failures in non-null positions are not generated (ambiguous ordering, DESIGN §3.4) except the canonical reproducer of KF-C04-thunk-nonnull; ADDED IN THE SENSITIVITY PHASE (DESIGN 13): outcomes added in the sensitivity phase: runtime-type decisions at list-typed fields (every element), serializers that raise (leafpanic) or yield nothing although the value is not nullish (NaN text, NaN, typed nil pointer, integer text outside 32 bits), at fields and at list items; deferred list elements; foreign located errors; context errors of the resolver's own; deferred list elements producing objects with deferred fields below them",
      technique="property-based testing (rapid): fault injection into resolvers, validity predicate + reference-model oracle",
      rule="C01 generator with outcome table drawn adversarially (nil, typed nil, error, value+error, panic with error/string/int, thunks that succeed/fail/yield nil, non-iterable for list, unserialisable / NaN / Inf / out-of-range / unknown-enum leaves, type resolver returning nil or a non-member, isTypeOf lying) at ~50% of reachable positions. Non-trivial = at least one override below the root level and at least one field error or thunk actually reached; distinct by hash of the case.",
      assumptions=EXEC_ASSUME,
@@ -35,7 +35,7 @@ MANIFEST_HEAD = {
         "guard": "verif",
         "enable": "go test -tags verif (the harness module /verif/harness replaces github.com/graphql-go/graphql with /repo)",
         "baseline_off_cmd": "cd /repo && GOFLAGS=-mod=mod GOPROXY=off GOSUMDB=off go test -vet=off -count=1 -timeout 25m ./...",
-        "source_commits": ["be1118b", "bbad90f"],
+        "source_commits": ["be1118b", "bbad90f", "dfdb34e"],
         "add_only": True,
     },
     "engines": [
@@ -84,7 +84,7 @@ SYN_ASSUME = [
 
 prop("C03",
      level_text="differential testing against an independent reference lexer+parser: bounded exhaustive enumeration of token strings (complete up to a length, sharded beyond), grammar-derived sentences under hostile layouts, token/byte mutations, and (thorough) a coverage-guided native fuzz campaign; oracle = accept/reject agreement, AST equality incl. decoded values and byte spans, source immutability",
-     note="two recorded known findings (malformed type references, rune offsets after multi-byte ignored characters) are absorbed only by their narrow classifiers while their reproducers still fail",
+     note="two recorded known findings (malformed type references, rune offsets after multi-byte ignored characters) are absorbed only by their narrow classifiers while their reproducers still fail; the token generator also emits almost-numbers (-01, -00e3, 1., .5, 0x1)",
      technique="bounded exhaustive enumeration + property-based testing (rapid) + go test -fuzz, differential oracle (reference parser)",
      rule="(a) every token string of length <= 3 over a 31-token alphabet (all punctuators, four literal forms, 13 names/keywords), a seed-selected 1/8 slice of length 4 in quick and all of length 4 plus all of length 5 (16 shards) in thorough; all [ ] ! a sequences <= 6 in two type-reference positions; 9 type-system prefixes x all continuations <= 4 over 12 tokens. (b) rapid: sentences derived from the grammar (executable, type-system, mixed, values) with hostile strings, block strings, numbers, layouts (commas, CR/LF/CRLF, comments, BOM, non-ASCII comments, touching tokens). (c) one token mutation (insert/delete/replace/swap/duplicate) and optionally one byte mutation. Non-trivial = not rejected by both sides within the first two tokens (enumeration) / contains a string, comment, type reference or is a rejected mutation (generated); distinct by input text.",
      assumptions=SYN_ASSUME,
@@ -97,7 +97,7 @@ prop("C03",
 
 prop("C08",
      level_text="round-trip testing: for generated and corpus documents the parser accepts, parse(print(A)) must be structurally identical to A (kinds, names, decoded values, order; locations aside), print must be stable after one round, and Print must leave its argument untouched; thorough adds a native fuzz campaign over arbitrary accepted byte strings",
-     note="quantifies over documents that are both accepted by the library and derivable from the grammar (inputs accepted only because of KF-C03-typeref are C03's business); layouts are ASCII so KF-C03-offsets cannot interfere; invalid UTF-8 is not generated; ADDED IN THE SENSITIVITY PHASE (DESIGN 13): string contents are composed from code-point classes (controls, C1, separators, BMP edges, non-BMP printable and not, combining marks), numbers from their grammatical parts, block strings from lines with drawn indentation and LF / CRLF / CR",
+     note="quantifies over documents that are both accepted by the library and derivable from the grammar (inputs accepted only because of KF-C03-typeref are C03's business); layouts are ASCII so KF-C03-offsets cannot interfere; invalid UTF-8 is not generated; ADDED IN THE SENSITIVITY PHASE (DESIGN 13): string contents are composed from code-point classes (controls, C1, separators, BMP edges, non-BMP printable and not, combining marks), numbers from their grammatical parts, block strings from lines with drawn indentation and LF / CRLF / CR; percent signs and formatting verbs inside strings and descriptions",
      technique="property-based testing (rapid) + go test -fuzz with a round-trip oracle",
      rule="sentences derived from the grammar (executable, type-system, mixed): every definition kind, every value kind nested, strings over a hostile alphabet (quotes, backslash, C0 controls, DEL, U+2028, BOM, non-BMP), descriptions as quoted and block strings with triple quotes / trailing quotes / indentation / CR / blank lines, directives with arguments on every definition kind, empty field lists. Non-trivial = parseable and contains a character outside plain printable ASCII, an escape, a block string, or a described / directive-carrying type-system definition; distinct by text.",
      assumptions=SYN_ASSUME,
@@ -108,7 +108,7 @@ prop("C08",
 
 prop("C09",
      level_text="robustness search over every public entry point (parser.Parse, printer.Print, ValidateDocument with each rule alone and all, PlanQuery+ExecutePlan / Execute / ExecuteSubscription on UNVALIDATED ASTs, Do, Subscribe, PlanCache.Get with and without normalisation): no panic, returns within a watchdog proportional to input size, result JSON-serialisable, no data after a parse/validation failure, an error whenever data is absent, subscription channels deliver and close",
-     note="fixed 'kitchen' schema (every type kind, cyclic types, mutation and subscription roots); watchdog = 11 x (5 s + 1 ms/byte), a hit is 'inconclusive' unless it persists; native fuzzing only in the thorough tier (its saved crasher is the reproducible unit); ADDED IN THE SENSITIVITY PHASE (DESIGN 13): also: scaled valid documents (C19 recipes over the kitchen schema, n = 48..80, half with mutually exclusive parents) against the watchdog, a quarter of all fields and list elements of the kitchen world are deferred values, TestC09_Valuations (128 valuations on one plan under a 30 s watchdog); a call that does not return ends the process at once with the failure recorded",
+     note="fixed 'kitchen' schema (every type kind, cyclic types, mutation and subscription roots); watchdog = 11 x (5 s + 1 ms/byte), a hit is 'inconclusive' unless it persists; native fuzzing only in the thorough tier (its saved crasher is the reproducible unit); ADDED IN THE SENSITIVITY PHASE (DESIGN 13): also: scaled valid documents (C19 recipes over the kitchen schema, n = 48..80, half with mutually exclusive parents) against the watchdog, a quarter of all fields and list elements of the kitchen world are deferred values, TestC09_Valuations (128 valuations on one plan under a 30 s watchdog); a call that does not return ends the process at once with the failure recorded; absence of data is judged on the serialised response (a typed-nil map is null on the wire); documents whose root selection is excluded entirely",
      technique="fuzzing: rapid-generated structured inputs + corpus replay, go test -fuzz in thorough; crash / hang / result-shape oracle",
      rule="inputs: grammatical sentences over the schema's vocabulary (optionally one token mutation, hostile layouts), token soup, a catalogue of ~110 validation-breaking documents (cyclic fragments of length 1-3 incl. through fields, unknown types/fields/fragments, type-system definitions mixed in, missing/duplicate operations, malformed type references, 60-200 deep nesting, 3000 siblings, 2000-element and 60-deep literals), random bytes; operation names and variable maps (incl. wrong kinds, 1e400, non-object JSON) from pools. Non-trivial = parsed successfully or failed after more than a few tokens; distinct by (text, operation name, variables).",
      assumptions=["resolvers are the harness's (World with salt 7, 1/6 nulls); subscription source = 2 events then close"],
@@ -146,7 +146,7 @@ prop("C12",
 
 prop("C02",
      level_text="differential testing of ValidateDocument against 24 independent rule predicates written from the spec text over the harness's document model: every rule is run alone and all together on valid-by-construction documents, on documents with one or two injected violations from a 78-operator catalogue, and on an exhaustively enumerated family of fragment topologies; oracle = per-rule 'reports iff violated', at least one reported location at the start of a node the rule may blame, IsValid iff no rule violated, Do answers without data iff invalid",
-     note="edition = October 2016 / graphql-js 0.8 (DESIGN §3.2); verdicts the edition leaves open (PossibleFragmentSpreads on non-composite conditions, shape of __typename, same-named definitions with different bodies) are not compared and counted under excluded; generated schemas mention all five built-in scalars; ADDED IN THE SENSITIVITY PHASE (DESIGN 13): documents carry up to six injected violations (interactions between rules); verdicts that depend on reading order are not compared: duplicate argument names on one field (overlap rule), __typename against another field under one key, locations when two definitions share a name",
+     note="edition = October 2016 / graphql-js 0.8 (DESIGN §3.2); verdicts the edition leaves open (PossibleFragmentSpreads on non-composite conditions, shape of __typename, same-named definitions with different bodies) are not compared and counted under excluded; generated schemas mention all five built-in scalars; ADDED IN THE SENSITIVITY PHASE (DESIGN 13): documents carry up to six injected violations (interactions between rules); verdicts that depend on reading order are not compared: duplicate argument names on one field (overlap rule), __typename against another field under one key, locations when two definitions share a name; fields may have an argument named like a directive's (`if`) and documents apply the schema's custom directives with arguments",
      technique="property-based testing (rapid) + bounded exhaustive enumeration, differential oracle (reference rule predicates)",
      rule="generated: schema x valid document (C01 generator, with custom directives) x 0-6 injections (unknown field/arg/type/directive/fragment, misplaced directives, wrong literal kinds at depth, missing required args/fields, undefined/unused/duplicate variables, stricter positions, non-input variable types, cycles of length 1-3, unused/duplicate fragments, impossible spreads, leaf/selection mismatches, duplicate args/input fields/operation names, anonymous+named, overlapping fields differing in name/args/shape directly and through fragment chains on one or both sides, plus 'legal divergence' operators). Enumerated: query + k fragments on one type, each body = one of 6 selections (x:a, x:b, x:c, q{x:a}, q{x:b}, y:a) followed by any subset of spreads: k=2 complete (13 824 documents; a seed-chosen quarter in quick), k=3 over 4 selections complete in thorough (1 048 576). Non-trivial = some rule is violated, or >= 2 fragments with a duplicated response key; distinct by case hash / text.",
      assumptions=["reference predicates: harness/ref/validate.go (does not import the library)"],
@@ -166,7 +166,7 @@ prop("C17",
 
 prop("C10",
      level_text="generated-input search (rapid): schema model (wrappers to depth 4, defaults of every input kind incl. enums with non-name internals, lists, nested input objects, custom scalars; descriptions; deprecations; custom directives; thunked interfaces / members; unreferenced implementers and an unreferenced union of them) built directly or by NewSchema + AppendType in a drawn order, where members of an appended union are appended before it, after it, or arrive only through it; the full introspection result is decoded and compared with the generating model, every defaultValue is parsed by the reference parser and coerced by the reference coercion and must give back the configured default; __type(name:) per type with includeDeprecated off",
-     note="configured defaults are generated in coerced form (input-object defaults carry their fields' own defaults, no null inside lists: this edition has no null literal); __typename = runtime type is covered by C01/C04; ADDED IN THE SENSITIVITY PHASE (DESIGN 13): a quarter of the cases supply no Types (the expected schema is what the roots reach); string defaults and descriptions are composed from code-point classes; an unreferenced union of unreferenced implementers is appended with members before / after / only through it",
+     note="configured defaults are generated in coerced form (input-object defaults carry their fields' own defaults, no null inside lists: this edition has no null literal); __typename = runtime type is covered by C01/C04; ADDED IN THE SENSITIVITY PHASE (DESIGN 13): a quarter of the cases supply no Types (the expected schema is what the roots reach); string defaults and descriptions are composed from code-point classes; an unreferenced union of unreferenced implementers is appended with members before / after / only through it; after the partial requests the full introspection is repeated and must give the same description; an enum value listed twice is reported",
      technique="property-based testing (rapid): model round trip through introspection + parse/coerce round trip of defaults",
      rule="Non-trivial = a default of list / input-object / enum kind, an interface with >= 2 implementers, or a schema extended by AppendType; distinct by case hash.",
      assumptions=["the set of types a schema must list = model types + built-in scalars it mentions + String, Boolean + the eight introspection types"],
@@ -181,7 +181,7 @@ prop("C11",
 
 prop("C06",
      level_text="model-based search over cache histories (rapid): sequences of Get+ExecutePlan / Reset / plan-once-execute-many over a working set drawn from a pool of near-identical requests (pairs differing in one literal, literal kind, directive, variable default, alias, argument order, repeated field, separator-like string contents, operation name, fragment body; invalid, over-size and syntactically wrong requests), two schema values of equal shape, MaxEntries in {1,2,3,1024}, MaxQueryBytes default or small, Normalize on/off, nil cache; plus rapid-generated documents with a literal-perturbed neighbour served alternately. Oracle = every served response equals graphql.Do of the same request from scratch (data JSON, error presence, error paths); with exact keys the hit/miss counters must match a reference LRU bounded by MaxEntries and bound to the schema pointer; over-size and nil-cache requests never touch the counters; a planned document is left unmodified",
-     note="resolvers echo their arguments, so a wrong literal, default or shared entry shows in data; under Normalize the counters are only required to move by exactly one per cacheable lookup. 'The original document is not modified' is observable only for PlanQuery+ExecutePlan on a caller-held AST (PlanCache.Get takes text); ADDED IN THE SENSITIVITY PHASE (DESIGN 13): also compared: error messages, and error locations except under normalisation while KF-C06-normalized-locations is active; resolvers may write into their argument maps; pool entries for operation names that select nothing, equal literals in other patterns, swapped variables, literals that mimic each other's structure; TestC06_Valuations serves one plan / cache entry with all 128 valuations of seven directive variables",
+     note="resolvers echo their arguments, so a wrong literal, default or shared entry shows in data; under Normalize the counters are only required to move by exactly one per cacheable lookup. 'The original document is not modified' is observable only for PlanQuery+ExecutePlan on a caller-held AST (PlanCache.Get takes text); ADDED IN THE SENSITIVITY PHASE (DESIGN 13): also compared: error messages, and error locations except under normalisation while KF-C06-normalized-locations is active; resolvers may write into their argument maps; pool entries for operation names that select nothing, equal literals in other patterns, swapped variables, literals that mimic each other's structure; TestC06_Valuations serves one plan / cache entry with all 128 valuations of seven directive variables; pool entries differing only in the kind of a literal that normalisation leaves in place (1 / \"1\" for a custom scalar)",
      technique="property-based testing (rapid): stateful / model-based history generation with a from-scratch differential oracle",
      rule="Non-trivial = a history that looks a key up again after it was stored (potential hit, collision or eviction), a reused plan executed more than once, or a generated document whose neighbour differs in >= 1 literal; distinct by case hash.",
      assumptions=EXEC_ASSUME,
@@ -191,7 +191,7 @@ prop("C06",
 
 prop("C19",
      level_text="scaling search over document families (nesting depth through an abstract field x number of implementers, fragment chains, one fragment spread at n sites, dense fragment DAGs, fragments spreading each other twice per level through fields, n repetitions of a response key with sub-selections, input literals n deep / n wide, n mutually exclusive inline fragments, n aliases): work is read from step counters at the field-collection and field-pair-comparison sites (verif build tag) after ValidateDocument, PlanQuery and ExecutePlan; composed recipe families (1-3 root contexts under no / different concrete type conditions, directly or under one response key, x which later fragments each fragment spreads: next, next two, all later, next and n/2 ahead, every third x how: directly, through a field, through an aliased field, alternating) measured at n = 8, 12, 18, 27 (40) with consecutive-size ratio <= 12 (degree 5 gives 7.6); oracle for the fixed families = doubling ratio <= 12 on the ladder 4..64 (128 in thorough), a cubic envelope fixed at the smallest size, plan-time work identical for 2 / 8 / 32 / 128 implementers, and at most one planned runtime type per abstract value encountered at execution",
-     note="no wall-clock oracle; the counters are the only source hook (commit listed under hooks.source_commits); exponential blow-ups pass ratio 12 by n=16 in every family probed; ADDED IN THE SENSITIVITY PHASE (DESIGN 13): families added: sparse, uniondepth (also in the implementers comparison), composed recipes; every measurement executes the plan twice (the second must plan nothing); literal coercion / validation are counted (second hook commit); a measurement is abandoned at 30M steps or 120 s and the process ends with the failure recorded",
+     note="no wall-clock oracle; the counters are the only source hook (commit listed under hooks.source_commits); exponential blow-ups pass ratio 12 by n=16 in every family probed; ADDED IN THE SENSITIVITY PHASE (DESIGN 13): families added: sparse, uniondepth (also in the implementers comparison), composed recipes; every measurement executes the plan twice (the second must plan nothing); literal coercion / validation are counted (second hook commit); a measurement is abandoned at 30M steps or 120 s and the process ends with the failure recorded; a counter in IsPossibleType's fallback scan (third hook commit); implementers appended with AppendType after construction; family conds (n type conditions under one field)",
      technique="property-based testing (rapid-drawn sizes) + fixed scaling ladders, metamorphic / growth-rate oracle on instrumented step counts",
      rule="ladder: every family x sizes 4,8,16,32,64 (dense DAG families to 32); implementers: depth family at n in {4,16,48} x m in {2,8,32,128}; rapid: family x n in [5,64] x m in {2,4,16,64} against the cubic envelope. Every case with n >= 8 is non-trivial; distinct by (family, n, m).",
      runs=[dict(test="^TestC19_", quick=dict(checks=300), thorough=dict(checks=3000, shards=4, timeout=3000))])
